@@ -220,6 +220,50 @@ def extract_taints(methods, path=CRYSTAL_PY):
     return methods
 
 
+def argument_blind_calls(methods, root="/repo/src/chmpy"):
+    """Calls anywhere in the library that hand a literal, non-default argument to a memoising query whose memo does not depend on
+    its arguments (all of Crystal's memos are attribute names fixed in the source): whichever call comes first then decides the
+    answer of all later ones.  Returns [(file, line, method, argument text)]."""
+    import os
+    tree = ast.parse(open(CRYSTAL_PY).read())
+    cls = next(n for n in tree.body if isinstance(n, ast.ClassDef) and n.name == "Crystal")
+    defaults = {}
+    for fn in cls.body:
+        if isinstance(fn, ast.FunctionDef) and fn.name in methods and (methods[fn.name].cache_writes & methods[fn.name].cache_reads):
+            names = [a.arg for a in fn.args.args][1:]
+            dv = fn.args.defaults
+            dmap = {}
+            for nm, d in zip(names[len(names) - len(dv):], dv):
+                if isinstance(d, ast.Constant):
+                    dmap[nm] = d.value
+            defaults[fn.name] = (names, dmap)
+    out = []
+    for dp, dn, fns in os.walk(root):
+        if "tests" in dp.split(os.sep):
+            continue
+        for f in fns:
+            if not f.endswith(".py"):
+                continue
+            path = os.path.join(dp, f)
+            try:
+                t = ast.parse(open(path).read())
+            except SyntaxError:
+                continue
+            for n in ast.walk(t):
+                if isinstance(n, ast.Call) and isinstance(n.func, ast.Attribute) and n.func.attr in defaults:
+                    names, dmap = defaults[n.func.attr]
+                    given = []
+                    for i, a in enumerate(n.args):
+                        if isinstance(a, ast.Constant) and i < len(names) and dmap.get(names[i], object()) != a.value:
+                            given.append("%s=%r" % (names[i], a.value))
+                    for k in n.keywords:
+                        if k.arg is not None and isinstance(k.value, ast.Constant) and k.arg in dmap and dmap[k.arg] != k.value.value:
+                            given.append("%s=%r" % (k.arg, k.value.value))
+                    if given:
+                        out.append((os.path.relpath(path, root), n.lineno, n.func.attr, ", ".join(given)))
+    return out
+
+
 def closure(methods, name, seen=None):
     seen = seen if seen is not None else set()
     if name in seen or name not in methods:
@@ -376,7 +420,10 @@ def _fresh(c):
     from chmpy.crystal import Crystal, UnitCell, SpaceGroup, AsymmetricUnit
     uc = UnitCell(np.array(c.unit_cell.direct, float).copy())
     sg = SpaceGroup(c.space_group.international_tables_number, c.space_group.choice)
-    au = AsymmetricUnit(list(c.asymmetric_unit.elements), np.array(c.asymmetric_unit.positions, float).copy(), labels=np.array(c.asymmetric_unit.labels))
+    kw = {}
+    if "occupation" in c.asymmetric_unit.properties:
+        kw["occupation"] = np.array(c.asymmetric_unit.properties["occupation"], float).copy()
+    au = AsymmetricUnit(list(c.asymmetric_unit.elements), np.array(c.asymmetric_unit.positions, float).copy(), labels=np.array(c.asymmetric_unit.labels), **kw)
     return Crystal(uc, sg, au)
 
 
@@ -425,6 +472,8 @@ def _reparse(name, out):
         return _crystal_summary(Crystal.from_cif_data(list(out.values())[0]))
     if name == "to_shelx_string":
         return _crystal_summary(Crystal.from_shelx_string(out))
+    if name == "to_poscar_string":
+        return _cif_numbers("\n".join(out.splitlines()[1:]))      # the first line is a free comment (title)
     return _summ(out)
 
 
@@ -457,12 +506,26 @@ def _cocrystal():
     return Crystal(uc, SpaceGroup(2), AsymmetricUnit(els, np.vstack([hf, w])))
 
 
+def _split_site():
+    """P-1 crystal with a site 0.003 from an inversion centre (its two images are 0.006 apart: merged at the default tolerance
+    of unit_cell_atoms, not at a smaller one) and a water molecule"""
+    from chmpy.crystal import Crystal, UnitCell, SpaceGroup, AsymmetricUnit
+    from chmpy.core.element import Element
+    uc = UnitCell.from_lengths_and_angles([9.3, 10.1, 11.7], [np.radians(85.0), np.radians(98.0), np.radians(102.0)])
+    inv = np.linalg.inv(np.asarray(uc.direct, float))
+    w = np.array([[0, 0, 0], [0.96, 0, 0], [-0.24, 0.93, 0]]) @ inv + np.array([0.17, 0.21, 0.23])
+    pos = np.vstack([[0.503, 0.5, 0.5], w])
+    return Crystal(uc, SpaceGroup(2), AsymmetricUnit([Element["Cl"], Element["O"], Element["H"], Element["H"]], pos, occupation=np.array([0.5, 1.0, 1.0, 1.0])))
+
+
 def run_history(seq, structure="r3c", from_file=True):
     """Execute the history on a real crystal; after every step compare each query's answer with a fresh crystal's.
     Returns list of discrepancies."""
     from chmpy.crystal import Crystal
     if structure == "cocrystal":
         c = _cocrystal()
+    elif structure == "split":
+        c = _split_site()
     else:
         path = {"r3c": "/repo/src/chmpy/tests/test_files/r3c_example.cif"}[structure]
         c = Crystal.load(path)
@@ -474,7 +537,7 @@ def run_history(seq, structure="r3c", from_file=True):
         if name == "deepcopy":
             c = copy.deepcopy(c)
             continue
-        if structure == "cocrystal" and (name.startswith("choose_trigonal_lattice") or name == "normalize_hydrogen_bondlengths"):
+        if structure in ("cocrystal", "split") and (name.startswith("choose_trigonal_lattice") or name == "normalize_hydrogen_bondlengths"):
             continue
         if name.startswith("choose_trigonal_lattice"):
             before = c.space_group.choice
@@ -539,12 +602,17 @@ def run(ctx):
     c = Crystal.load("/repo/src/chmpy/tests/test_files/r3c_example.cif")
     c.symmetry_unique_molecules()
     ctx.fidelity_check("extracted caches exist on a real crystal after the producing queries", all(hasattr(c, x) for x in caches), str(caches))
-    qonly = ["unit_cell_atoms", "deepcopy", "unit_cell_molecules", "to_cif_string", "slab", "symmetry_unique_molecules", "density", "to_shelx_string"]
-    qbad = [b for st in ("r3c", "cocrystal") for b in run_history(qonly, st, from_file=False)]
-    ctx.record("queries only (%d queries, two structures): every answer equals a fresh crystal's, repeats are equal, cell / space group (operation list in order) / asymmetric unit untouched" % len(qonly),
+    blind = argument_blind_calls(methods)
+    ctx.record("no call in the library hands a literal non-default argument to a memoising query whose memo ignores its arguments (AST scan of src/chmpy, %d memoising queries)"
+               % sum(1 for m_ in methods.values() if m_.cache_writes & m_.cache_reads), "holds" if not blind else "counterexample", nontrivial=True, sample=blind[:3])
+    qonly = ["unit_cell_atoms", "deepcopy", "unit_cell_molecules", "to_cif_string", "slab", "symmetry_unique_molecules", "density", "to_shelx_string", "to_poscar_string"]
+    qbad = [b for st in ("r3c", "cocrystal", "split") for order in (qonly, qonly[::-1]) for b in run_history(order, st, from_file=False)]
+    if blind and not qbad:
+        ctx.mark_inconclusive("argument-blind memo", "calls %s pass a non-default literal to a memoising query, but the replay histories show no difference" % (blind[:2],))
+    ctx.record("queries only (%d queries in both orders, three structures): every answer equals a fresh crystal's, repeats are equal, cell / space group (operation list in order) / asymmetric unit untouched" % len(qonly),
                "holds" if not qbad else "counterexample", nontrivial=True, method="history executed on the real code")
     if qbad:
-        ctx.violation("hist:queries-only", "a history of read-only queries: %s" % qbad[0], {"history": qonly, "from_file": False, "structures": ["r3c", "cocrystal"]}, replay_history)
+        ctx.violation("hist:queries-only", "a history of read-only queries: %s" % qbad[0], {"history": qonly[::-1] + ["deepcopy"] + qonly, "from_file": False, "structures": ["r3c", "cocrystal", "split"]}, replay_history)
 
     kmax = 4 if ctx.tier == "quick" else 6
     found = []
